@@ -24,6 +24,7 @@ mod c_shape;
 mod c_solver;
 mod c_render;
 mod c_tree;
+mod c_raster;
 mod c_deriv;
 mod helpers;
 
@@ -61,7 +62,7 @@ fn main() {
 }
 
 /// contracts that run JIT evaluators in-process (`total` manages its own children)
-const JIT_IN_PROCESS: [&str; 13] = ["interval_sweep", "solver_linear", "render_handle", "solver_bind", "shape_transform", "jit_point", "jit_bulk", "jit_interval", "jit_interval_valid", "jit_grad", "jit_trace", "simplify_sem", "reuse"];
+const JIT_IN_PROCESS: [&str; 14] = ["render2d", "interval_sweep", "solver_linear", "render_handle", "solver_bind", "shape_transform", "jit_point", "jit_bulk", "jit_interval", "jit_interval_valid", "jit_grad", "jit_trace", "simplify_sem", "reuse"];
 
 fn guarded(contract: &str, rest: &[String]) -> serde_json::Value {
     let died = |what: String| {
@@ -100,6 +101,7 @@ pub fn run(contract: &str, thorough: bool, seed: u64) -> Report {
         "interp_interval" => c_interp::interp_interval(thorough),
         "interval_sweep" => c_interp::interval_sweep(thorough),
         "tree_clauses" => c_tree::tree_clauses(thorough, seed),
+        "render2d" => c_raster::render2d(thorough),
         "flatten" => c_flatten::flatten(thorough, seed),
         "alloc_cex" => c_alloc::alloc_cex(thorough, seed),
         "alloc_small_n" => c_alloc::alloc_small_n(thorough, seed),
@@ -139,6 +141,7 @@ fn replay(v: &serde_json::Value) -> i32 {
         "jit_bulk_guard" => c_jit::guard_replay(v),
         "interval_sweep" => c_interp::sweep_replay(v),
         "tree_clauses" => c_tree::replay(v),
+        "render2d" => c_raster::replay(v),
         "jit_point" | "jit_bulk" | "jit_interval" | "jit_interval_valid" | "jit_grad" => c_jit::replay(v),
         "trace_vm" | "jit_trace" => c_trace::replay(v),
         "simplify_sem" => c_simplify::replay(v),
